@@ -672,6 +672,11 @@ def c04_jobs(tier):
                 if quick and n == 4 and kind == 1 and perm % 3 != 0:
                     continue
                 J("verif_C04_pivots", [kind, n, perm])
+        for perm in range(6):
+            J("verif_C04_pivots_fp", [kind, 3, perm], mode="fp")
+        for perm in range(24):
+            J("verif_C04_pivots_fp", [kind, 4, perm], mode="fp")
+        J("verif_C04_pd_reuse", [kind, 2])
     return jobs
 
 
@@ -680,7 +685,7 @@ PROPS["C04"] = {
     "patterns": ["./zzverif"],
     "mode": "real", "intmode": "int",
     "jobs": c04_jobs,
-    "reach": ["gj-returned", "inverse-returned", "backsub-returned", "det-returned", "pivots"],
+    "reach": ["gj-returned", "inverse-returned", "backsub-returned", "det-returned", "pivots", "pivots-fp", "pd-reuse"],
     "replay_tol": 1e-6,
     "job_budget_ms": {"quick": 150000, "thorough": 1500000},
     "selftest_vars": [],
